@@ -7,7 +7,8 @@ From DuneV Require Import C08_Model.
 Extraction Language OCaml.
 Extraction "c08_model.ml"
   c08_b64_of_bits c08_b64_to_bits c08_b64_eigenvalues2 c08_b64_eigenvaluesvectors2 c08_eig1 c08_b64_ops
+  c08_b64_eig0 c08_b64_orthocomp c08_b64_eig1
   c08_b32_of_bits c08_b32_to_bits c08_b32_eigenvalues2 c08_b32_eigenvaluesvectors2 c08_b32_ops
   c08_flatten c08_colmajor c08_rows c08_rows_list
   c08_sym_lapack c08_eigenvalues_lapack c08_eigenvaluesvectors_lapack c08_eigenvalues_generic
-  c08_nonsym_dyn c08_nonsym_dyn_fixed c08_nonsym_fm.
+  c08_nonsym_dyn c08_nonsym_dyn_fixed c08_nonsym_dyn_src c08_nonsym_fm.
